@@ -21,7 +21,7 @@ from vt.util import cb, ci, pick, untraced
 LAST = None
 KA = [W.PASS, W.FAIL, W.ERROR, W.XPASS, W.SKIP_BODY, W.XFAIL, W.SUBFAIL2, W.SYSEXIT, W.SKIP_DECO, W.TD_ERR]
 KB = [W.PASS, W.FAIL, W.ERROR, W.XPASS]
-FAULTS = [None, ('spawn',), ('no_report',), ('truncate', 4), ('truncate', 0)]
+FAULTS = [None, ('spawn',), ('no_report',), ('truncate', 4), ('truncate', 0), ('keep_report_lines', 1)]
 
 
 def verdict(mode, ka, kb, imp, su, td, b_on_a, fault, noise):
@@ -73,7 +73,12 @@ def oracle(res, mode, ka, kb, imp, su, td, b_on_a, fault):
     if W.is_bad(kb) and 'b0' in tests_ran:
         wrong.append('b0 ' + W.KIND_NAMES[kb])
     if fault is not None and res.children:
-        wrong.append('transport fault %r on %d children' % (fault, len(res.children)))
+        if fault[0] == 'keep_report_lines':
+            # the header arrived, the names did not: a fault only for children that had names to send
+            if any(c.get('honest_stderr', b'').splitlines()[-1:] != c.get('stderr', b'').splitlines()[-1:] for c in res.children):
+                wrong.append('report of a child cut after its header line')
+        else:
+            wrong.append('transport fault %r on %d children' % (fault, len(res.children)))
     exp = bool(wrong)
     if bool(res.failed) != exp:
         return 'verdict failed=%r, but went wrong: %r (mode %s, %d children)' % (res.failed, wrong, mode, len(res.children)), exp
@@ -203,7 +208,7 @@ _P = [('mode', 'int'), ('ka', 'int'), ('kb', 'int'), ('imp', 'bool'), ('su', 'in
 _C = ', '.join(n for n, _ in _P)
 _B = '0 <= mode < 5 and 0 <= ka < %d and 0 <= kb < %d and 0 <= su <= 2 and 0 <= td <= 2 and 0 <= fault < %d' % (len(KA), len(KB), len(FAULTS))
 _BAD = '((ka != 0 and ka != 4 and ka != 5 and ka != 8) + (kb != 0) + imp + (su != 0) + (td != 0) + (fault != 0))'
-_Q = _B + ' and %s <= 2 and noise and kb <= 1 and fault <= 3' % _BAD
+_Q = _B + ' and %s <= 2 and noise and kb <= 1 and fault != 4' % _BAD
 _T = _B
 
 
